@@ -125,6 +125,71 @@ pub fn run_real(al: &Alphabet, hist: &[Arr], w: u32, var: Variant) -> Result<Vec
     })
 }
 
+/// The same history with a SLOW consumer: the output channel holds one record and the consumer takes at most one
+/// record per arrival (none before arrival `from`), so the task spends most of its time blocked in `send`. Nothing may
+/// be lost, duplicated or reordered by that; everything is drained after the input has closed.
+pub fn run_real_slow(al: &Alphabet, hist: &[Arr], w: u32, var: Variant, from: usize) -> Result<Vec<Rec>, String> {
+    guarded(|| {
+        let handle = RT.with(|rt| rt.handle().clone());
+        let _ctx = handle.enter();
+        let n = hist.len();
+        let (tx_in, rx_in) = tokio::sync::mpsc::channel::<TimedMessage>(n + 1);
+        let (tx_out, mut rx_out) = tokio::sync::mpsc::channel::<TimedMessage>(1);
+        let mut fut = Box::pin(deduplicate_messages(rx_in, tx_out, w));
+        let waker = futures::task::noop_waker();
+        let mut cx = Context::from_waker(&waker);
+        let mut out = Vec::new();
+        let mut take = |step: usize, rx_out: &mut tokio::sync::mpsc::Receiver<TimedMessage>, max: usize| {
+            let mut k = 0;
+            while k < max {
+                match rx_out.try_recv() {
+                    Ok(m) => {
+                        out.push(Rec {
+                            step,
+                            ts_ms: ((m.timestamp * 1e3).round() as u64).wrapping_sub(var.base_s * 1000),
+                            ids: m.metadata.iter().map(|x| x.nanoseconds.unwrap_or(u64::MAX)).collect(),
+                            decoded: m.message.is_some(),
+                            frame: m.frame,
+                        });
+                        k += 1;
+                    }
+                    Err(_) => break,
+                }
+            }
+            k
+        };
+        let mut done = false;
+        for (i, a) in hist.iter().enumerate() {
+            tx_in.try_send(make_msg(al, i, a, var)).map_err(|_| ()).expect("input channel has room");
+            for _ in 0..2 {
+                if !done && fut.as_mut().poll(&mut cx).is_ready() {
+                    done = true;
+                }
+            }
+            if i >= from {
+                take(i, &mut rx_out, 1);
+            }
+        }
+        drop(tx_in);
+        // drain: poll and take until the task has finished and nothing is left (bounded: every round must make progress)
+        let mut idle = 0;
+        while idle < 4 {
+            if !done && fut.as_mut().poll(&mut cx).is_ready() {
+                done = true;
+            }
+            if take(n, &mut rx_out, 1) == 0 {
+                idle += 1;
+            } else {
+                idle = 0;
+            }
+        }
+        if !done {
+            panic!("deduplicate_messages did not finish after its input channel was closed and its output drained");
+        }
+        out
+    })
+}
+
 fn make_msg(al: &Alphabet, i: usize, a: &Arr, var: Variant) -> TimedMessage {
     let t = var.base_s as f64 + a.ms as f64 / 1e3;
     let mut metadata = vec![SensorMetadata { system_timestamp: t, gnss_timestamp: None, nanoseconds: Some(i as u64), rssi: None, serial: a.rx as u64 + 1, name: None }];
@@ -340,6 +405,18 @@ fn check_one(al: &Alphabet, hist: &[Arr], w: u32, var: Variant, rep: &Report, ag
             oc[out.len().min(7)] += 1;
             if let Some((class, what)) = judge(al, hist, w, var, &out) {
                 rep.violation(&class, what, hist_json(hist, w, var));
+            }
+            // slow consumer (on every 3rd history): same records, same order
+            if hist.len() >= 2 && (hist.len() + hist[0].ms as usize + hist[hist.len() - 1].frame as usize) % 3 == 0 {
+                match run_real_slow(al, hist, w, var, hist.len() / 2) {
+                    Err(p) => rep.violation(&format!("slow-consumer:panic:{}", panic_class(&p)), format!("deduplicate_messages panicked with a slow consumer: {p}"), hist_json(hist, w, var)),
+                    Ok(slow) => {
+                        let key = |v: &[Rec]| v.iter().map(|r| (r.frame.clone(), r.ts_ms, r.ids.clone())).collect::<Vec<_>>();
+                        if key(&slow) != key(&out) {
+                            rep.violation("slow-consumer:differs", format!("with an output channel of one record and a slow consumer the task emits {} records, {} otherwise (or in another order / with other receptions)", slow.len(), out.len()), hist_json(hist, w, var));
+                        }
+                    }
+                }
             }
             let mut a: Vec<(Vec<u8>, u64, Vec<u64>)> = out.iter().map(|r| (r.frame.clone(), r.ts_ms, r.ids.clone())).collect();
             let mut b: Vec<(Vec<u8>, u64, Vec<u64>)> = run_model(al, hist, w, var).iter().map(|r| (r.frame.clone(), r.ts_ms, r.ids.clone())).collect();
